@@ -326,6 +326,15 @@ def sec_selfcheck(rep, seed):
     rep.add(Ob("C16/selfcheck/classification-canary", "canary", PROVED if ok else "error", "eval", 0, "KeyError -> internal, ValueError(msg) -> explicit, ValueError('') -> internal"))
 
 
+def sec_sv_history(rep):
+    """No internal lookup error through the scale-variation manager shared by the points of a run:
+    after any history of flavour numbers every (label, nf) the tables read exists (cache invariant
+    of compute_raw, contract shared with C05/C14)."""
+    from . import c05
+
+    c05.sec_compute_raw(rep)
+
+
 def run(rep, tier, seed, only=None):
     rep.assume(
         "dispatch lattice: kinds x heavyness x process x scheme x NfFF x nf x (PTO, PTO_evol); projectile collapsed to the CC rest parity (electron/positron) in the quick tier because the dispatch provably reads nothing else of it (C07 read-set); TMC and cross-section kinds are separate factors (TMC dispatch happens in sf.get_esf, XS kinds in exs: C11)",
@@ -333,7 +342,7 @@ def run(rep, tier, seed, only=None):
         "in-repo formulas finite on their domain: C03 definedness obligations (run under C03)",
         "explicit rejection := ValueError / NotImplementedError / RuntimeError with a non-empty message",
     )
-    for nm, f in (("dispatch", lambda r: sec_dispatch(r, tier)), ("tmc", sec_tmc_dispatch), ("kinematics", sec_kinematics), ("nans", sec_nans)):
+    for nm, f in (("dispatch", lambda r: sec_dispatch(r, tier)), ("tmc", sec_tmc_dispatch), ("kinematics", sec_kinematics), ("nans", sec_nans), ("svhistory", sec_sv_history)):
         if only and only not in nm:
             continue
         rep.add(guarded(f"C16/{nm}", lambda f=f: (f(rep), [])[1]))
